@@ -88,7 +88,9 @@ class CFG(object):
         seen = set()
         stack = []
         for s in starts:
-            if include_start and s not in avoid:
+            if s in avoid and include_start:
+                continue            # a start node that is itself to be avoided contributes nothing
+            if include_start:
                 seen.add(s)
             stack.append(s)
         expanded = set()
@@ -132,6 +134,8 @@ class CFG(object):
     def postdominates(self, a_set, b, exc=False, exits=None):
         """True iff every path from b to a normal exit passes through a node of a_set."""
         a_set = set(a_set)
+        if b in a_set:
+            return True
         exits = exits if exits is not None else [self.exit]
         r = self.reach([b], avoid=a_set, exc=exc)
         return not any(x in r for x in exits)
